@@ -328,6 +328,14 @@ static void run_history(hist_t *h, int rep)
         else if (!strncmp(op, "OTHER", 5)) op_other(h, op);
         else if (!strncmp(op, "GSSVX", 5)) op_gssvx(h, op);
         else if (!strncmp(op, "GSSV", 4)) op_gssv(h, op);
+        else if (!strncmp(op, "TUNE", 4)) {
+            /* the caller changes the blocking parameters between two first-time factorizations (never while factors are live:
+               a refactorization reuses the partition computed under the old parameters) */
+            if (h->have_factors) verdict_skip("TUNE while factors are live");
+            g_ienv[1] = (int)opt_int(op, "panel", g_ienv[1]); g_ienv[2] = (int)opt_int(op, "relax", g_ienv[2]); g_ienv[3] = (int)opt_int(op, "maxsuper", g_ienv[3]);
+            g_ienv[4] = (int)opt_int(op, "rowblk", g_ienv[4]); g_ienv[5] = (int)opt_int(op, "colblk", g_ienv[5]);
+            feat_add("tunes", 1);
+        }
         else if (!strncmp(op, "VALUES", 6)) { char mb[16]; change_values(h, opt_str(op, "vals", "scale", mb, sizeof mb), (uint64_t)opt_int(op, "vseed", 1)); }
     }
 }
